@@ -220,7 +220,7 @@ class SbxRun:
                 o['skipped'] = 'no-such-function'
         if self.ref is not None and op.get('noref') and inputs is not None:
             self.ref.set_inputs(inputs if isinstance(inputs, (list, tuple)) else [inputs])
-        if use_ref:
+        def do_ref():
             if inputs is not None:
                 self.ref.set_inputs(inputs if isinstance(inputs, (list, tuple)) else [inputs])
             rfault = fault if (fault and fault.get('kind') == 'sync_student' and not op.get('nomirror')) else None
@@ -343,6 +343,13 @@ class SbxRun:
         if self.cfg.get('data'):
             o['names'] = student_data(sb)
             o['temporaries'] = sorted(k for k in sb.data if k.startswith('_temporary_'))
+        # The reference runs AFTER the sandbox (its result is only needed for judging): whatever the reference
+        # imports or caches process-wide must not pave the way for the sandbox, e.g. a submodule that is loaded
+        # for the first time by this very program.
+        if use_ref:
+            do_ref()
+        if self.ref is not None:
+            o['ref_queue'] = list(self.ref.queue)
         return o
 
     def io_state(self):
